@@ -717,6 +717,8 @@ func runC03(c *config) {
 	}
 	// 0. execution: what the printed text computes under LLVM's lli is what the construction calls imply
 	c03Exec(c, newRng(c.seed, "c03exec"))
+	// 0b. the floating-point constructor on doubles that are not values of the kind (c03float.go)
+	c03FloatConstructor(c, newRng(c.seed, "c03float"))
 	// 1. every instruction constructor on well-typed operands (the generator of C06), inside a module built
 	//    with the builder API, with named and unnamed values
 	for i := 0; i < 1500*c.scale; i++ {
